@@ -204,9 +204,14 @@ Norm(ds, acc) == IF ds = <<>> THEN acc
                  ELSE IF Head(ds) = ".." THEN Norm(Tail(ds), IF acc = <<>> THEN <<>> ELSE SubSeq(acc, 1, Len(acc) - 1))
                  ELSE Norm(Tail(ds), Append(acc, Head(ds)))
 Resolve(base, p) == LET d == IF p.abs THEN p.dirs ELSE base \o p.dirs IN [dirs |-> Norm(d, <<>>), file |-> p.file]
+\* os.path.join(cwd, text): the path as the listener writes it.  The file it opens is Resolve (".." followed), but "already
+\* included" compares these strings, and a nested listener's directory is the dirname of this string (".." segments kept).
+RawPath(base, p) == [dirs |-> IF p.abs THEN p.dirs ELSE base \o p.dirs, file |-> p.file]
 
-NewFrame(s, base) == [script |-> s, plan |-> Plan(s), pc |-> 1, prog |-> EmptyProg, inFor |-> FALSE, loop |-> None,
-                      base |-> base, incs |-> <<>>]
+\* base: the listener's directory as it is spelled (dirname of the path it was given: possibly relative to the process working
+\* directory, ".." kept); abase: the directory it denotes (absolute, normalised), where its include lines are looked up
+NewFrame(s, base, abase) == [script |-> s, plan |-> Plan(s), pc |-> 1, prog |-> EmptyProg, inFor |-> FALSE, loop |-> None,
+                             base |-> base, abase |-> abase, incs |-> <<>>]
 
 Top(S) == S.st[Len(S.st)]
 Instr(S) == Top(S).plan[Top(S).pc]
@@ -214,8 +219,9 @@ SetTop(S, f) == [S EXCEPT !.st[Len(S.st)] = f]
 Adv(f) == [f EXCEPT !.pc = f.pc + 1]
 Fail(S, r) == [S EXCEPT !.st = <<>>, !.res = r]          \* an exception unwinds every frame; the tables stay as they are
 
-Begin(S0, s, base) == [V |-> IF ClearTablesAtLoadStart THEN <<>> ELSE S0.V, P |-> IF ClearTablesAtLoadStart THEN <<>> ELSE S0.P,
-                       st |-> <<NewFrame(s, base)>>, res |-> None]
+BeginAt(S0, s, base, abase) == [V |-> IF ClearTablesAtLoadStart THEN <<>> ELSE S0.V, P |-> IF ClearTablesAtLoadStart THEN <<>> ELSE S0.P,
+                                st |-> <<NewFrame(s, base, abase)>>, res |-> None]
+Begin(S0, s, base) == BeginAt(S0, s, base, base)          \* loaded by its absolute path
 
 \* metadata options: only keyword options are kept; positional ones are evaluated and ignored (with a warning)
 MetaStep(S, which) ==
@@ -283,10 +289,10 @@ Step(S) ==
     [] a = "target" -> MetaStep(S, "target")
     [] a = "declaretype" -> MetaStep(S, "type")
     [] a = "include" ->
-         LET file == Resolve(f.base, ins.path) IN
-         IF \E i \in 1..Len(f.incs) : f.incs[i].file = file THEN SetTop(S, Adv(f))       \* already included
+         LET file == Resolve(f.abase, ins.path) raw == RawPath(f.base, ins.path) IN
+         IF \E i \in 1..Len(f.incs) : f.incs[i].file = raw THEN SetTop(S, Adv(f))        \* already included (under this very spelling)
          ELSE IF FS(file) = NoFile THEN Fail(S, Raise("other", "nofile"))
-         ELSE [S EXCEPT !.st = Append(S.st, NewFrame(FS(file), file.dirs))]               \* nested listener
+         ELSE [S EXCEPT !.st = Append(S.st, NewFrame(FS(file), raw.dirs, file.dirs))]     \* nested listener
     [] a = "enterProgram" -> [SetTop(S, Adv(f)) EXCEPT !.V = <<>>, !.P = <<>>]
     [] a = "exprvar" ->
          LET it == ins.it IN
@@ -333,7 +339,7 @@ Step(S) ==
             THEN [S EXCEPT !.V = <<>>, !.P = <<>>, !.st = <<>>, !.res = [k |-> "ok", prog |-> prog]]
             ELSE \* a nested listener is done: register it by program name (with its own includes) in the parent
                  LET parent == S.st[Len(S.st) - 1]
-                     file == Resolve(parent.base, parent.plan[parent.pc].path)
+                     file == RawPath(parent.base, parent.plan[parent.pc].path)
                      incs2 == IncMerge(IncPut(parent.incs, [name |-> prog.name, file |-> file, prog |-> prog]), f.incs)
                  IN [S EXCEPT !.V = <<>>, !.P = <<>>,
                               !.st = Append(SubSeq(S.st, 1, Len(S.st) - 2), Adv([parent EXCEPT !.incs = incs2]))]
